@@ -898,8 +898,8 @@ class Interp:
     def call_method(self, o, name, args, kwargs):
         return self.call(self.getattr(o, name), args, kwargs)
 
-    def call_function(self, f: FuncVal, args, kwargs):
-        c = self.contracts.get(f.qual)
+    def call_function(self, f: FuncVal, args, kwargs, use_contract=True):
+        c = self.contracts.get(f.qual) if use_contract else None
         if c is not None:
             return c(self, list(args), dict(kwargs), f)
         self.called_quals.add(f.qual)
